@@ -50,7 +50,7 @@ type PtrAlt struct {
 // View > 0 means an unsafe reinterpretation: cells are bytes and the pointee is View bytes wide little-endian.
 type Ptr struct {
 	Alts []PtrAlt
-	Fn   Value // for pointers to functions (unused)
+	View int // >1: unsafe reinterpretation of byte cells as little-endian words of View bytes
 }
 
 type SliceV struct {
